@@ -164,7 +164,7 @@ M = {
     "c18_searchsorted_left": (["C18"], [(S + "piecewise_functions.py",
         '    selected_bin = numpy.searchsorted(thresholds, x, side="right") - 1', '    selected_bin = numpy.searchsorted(thresholds, x, side="left") - 1')]),
     "c18_progression_factor": (["C18", "C07"], [(S + "policy_environment.py",
-        "            ) / (2 * (upper_thresholds[key] - lower_thresholds[key]))", "            ) / (2 * (upper_thresholds[key] - lower_thresholds[key]) + (key == 3))")]),
+        "            ) / (2 * (upper_thresholds[key] - lower_thresholds[key]))", "            ) / (2 * (upper_thresholds[key] - lower_thresholds[key]) + (key == 2))")]),
     "c18_multiplier_path_skips_interval": (["C18"], [(S + "piecewise_functions.py",
         "        for i in range(2, num_intervals):", "        for i in range(2, num_intervals - 1):")]),
     # ---- C19
